@@ -74,10 +74,12 @@ impl TraitHandler for HashStructHandler {
 
         let (impl_generics, ty_generics, where_clause) = generics.split_for_impl();
 
+        let hasher = super::hasher_ident(&ast.generics);
+
         token_stream.extend(quote! {
             impl #impl_generics ::core::hash::Hash for #ident #ty_generics #where_clause {
                 #[inline]
-                fn hash<H: ::core::hash::Hasher>(&self, state: &mut H) {
+                fn hash<#hasher: ::core::hash::Hasher>(&self, state: &mut #hasher) {
                     #hash_token_stream
                 }
             }
